@@ -303,6 +303,19 @@ func (m *Monitor) IOFaulted(role, op, addr string) {
 		m.srvWriteFailed[addr[i+1:]] = true
 	case role == "listener-conn" && op == "TornWrite":
 		m.v([]string{"C05", "C10", "C19"}, "torn-frame", nil, "a write toward a stream client ended early (%s) and the connection stays in use: what follows the torn frame cannot be framed", addr)
+	case role == "listener-conn" && op == "DroppedWrite":
+		// a write deadline made the server give up a whole frame while it goes on using the
+		// connection. Relayed data may be dropped toward a receiver that does not read; a
+		// response may not: its request is never answered (a stream has no retransmissions to
+		// count on), and the monitor has already credited it as sent
+		i := strings.LastIndex(addr, "|")
+		if raw, err := hex.DecodeString(addr[i+1:]); err == nil && len(raw) >= 20 && raw[0]&0xC0 == 0 {
+			mt := stun.MessageType{}
+			mt.ReadValue(uint16(raw[0])<<8 | uint16(raw[1]))
+			if mt.Class == stun.ClassSuccessResponse || mt.Class == stun.ClassErrorResponse {
+				m.v([]string{"C19", "C09"}, "no-response", kv("method", methodName(mt.Method), "how", "write-given-up"), "the %s response toward a stream client was given up at a write deadline before its first byte (%s) and the connection stays in use: that request is never answered", methodName(mt.Method), addr[:i])
+			}
+		}
 	case role == "listener-conn" && op == "Write":
 		i := strings.LastIndex(addr, ">")
 		m.srvWriteFailed[addr[i+1:]] = true
